@@ -36,7 +36,13 @@ type c05Spec struct {
 	Hooks         []*hookRule `json:"hooks,omitempty"`
 	WaitHit       string      `json:"wait_hit,omitempty"` // pair plans: latch the driver waits for before it triggers the stop
 	DoneStorm     *doneStorm  `json:"done_storm,omitempty"`
-	GoMaxProcs    int         `json:"gomaxprocs,omitempty"` // the child runs with GOMAXPROCS=<n>
+	// NotifyManages: the change-notify function of module management does what the
+	// example in EnableModuleManagement's documentation does: it calls ManageModules()
+	// (not once the global shutdown has begun). The driver lets all pending notifications
+	// finish before it begins a pass, so that none of them is a worker of an online
+	// module that waits for the management lock when the next pass takes it.
+	NotifyManages bool `json:"notify_manages,omitempty"`
+	GoMaxProcs    int  `json:"gomaxprocs,omitempty"` // the child runs with GOMAXPROCS=<n>
 	// FailStart: modules (module management on) that are not enabled at Start. Afterwards
 	// they are enabled; the first ManageModules pass runs their start routine, which
 	// launches its cycle-1 items and then fails; a second pass starts them successfully.
@@ -152,6 +158,10 @@ type c05H struct {
 	notes  []string
 	phase  string
 	preTsk map[string]*modules.Task // P4: tasks created while the module was online
+
+	notifyOpen     atomic.Int32 // change notifications that are being handled
+	notifyDone     atomic.Int32 // ... that have been handled
+	notifyExpected atomic.Int32 // ... that the passes so far have issued (at least)
 }
 
 func (h *c05H) note(f string, a ...any) {
@@ -219,9 +229,50 @@ func (h *c05H) write(hung string) {
 	_ = os.WriteFile(filepath.Join(h.dir, "out.json"), b, 0o644)
 }
 
+// waitNotifications: every notification the passes so far have issued has been handled.
+// Otherwise a notification about a module that is online could still be pending as a
+// worker of that module; its ManageModules() call would wait for the management lock and
+// - if the next pass stops that very module - the stop for that worker: a deadlock of the
+// documented usage itself that only the stop timeout resolves (reported as a diagnostic,
+// not part of this property: that worker does not return within the stop timeout).
+func (h *c05H) waitNotifications() {
+	for dl := time.Now().Add(10 * time.Second); time.Now().Before(dl); {
+		if h.notifyDone.Load() >= h.notifyExpected.Load() && h.notifyOpen.Load() == 0 {
+			return
+		}
+		time.Sleep(200 * time.Microsecond)
+	}
+	h.note("notifications did not settle: %d handled, %d expected, %d open", h.notifyDone.Load(), h.notifyExpected.Load(), h.notifyOpen.Load())
+}
+
 func (h *c05H) driver(op string, fn func() error) error {
+	if h.spec.NotifyManages {
+		h.waitNotifications()
+	}
+	before := map[string]uint8{}
+	if h.spec.NotifyManages {
+		for n, m := range h.mods {
+			before[n] = m.Status()
+		}
+	}
 	h.log.Rec("call", "driver", op, nil)
 	err := fn()
+	if h.spec.NotifyManages {
+		// notifications the pass has issued (unchanged portbase): "offline" after prep,
+		// "online" after a start, "offline" plus the resolved failure state after a stop
+		for n, m := range h.mods {
+			switch st := m.Status(); {
+			case op == "Start" && st == modules.StatusOnline:
+				h.notifyExpected.Add(2)
+			case op == "Start" && st == modules.StatusOffline:
+				h.notifyExpected.Add(1)
+			case before[n] == modules.StatusOnline && st == modules.StatusOffline:
+				h.notifyExpected.Add(2)
+			case before[n] == modules.StatusOffline && st == modules.StatusOnline && op != "Start":
+				h.notifyExpected.Add(1)
+			}
+		}
+	}
 	f := map[string]any{}
 	if err != nil {
 		f["err"] = err.Error()
@@ -255,9 +306,14 @@ func (h *c05H) run() {
 		modules.EnableModuleManagement(func(m *modules.Module) {
 			// pre = last sequence number issued before the status was sampled: the sample lies
 			// between event pre and this event
+			h.notifyOpen.Add(1)
+			defer func() { h.notifyDone.Add(1); h.notifyOpen.Add(-1) }()
 			pre := h.log.Now()
 			st := m.Status()
 			h.log.Rec("notify", m.Name, "", map[string]any{"status": int(st), "pre": pre})
+			if sp.NotifyManages && !modules.IsShuttingDown() {
+				_ = modules.ManageModules()
+			}
 		})
 		for n, m := range h.mods {
 			if !contains(sp.FailStart, n) {
@@ -339,6 +395,9 @@ func (h *c05H) run() {
 	}
 	h.setPhase("shutdown")
 	_ = h.driver("Shutdown", modules.Shutdown)
+	for _, ms := range sp.Mods {
+		h.log.Rec("status-after-shutdown", ms.Name, "", map[string]any{"status": int(h.mods[ms.Name].Status())})
+	}
 	h.setPhase("post")
 	h.p4Probes("post")
 	time.Sleep(10 * time.Millisecond)
